@@ -8,7 +8,7 @@ pub mod command;
 pub mod protocol;
 
 use std::{
-    collections::HashSet,
+    collections::HashMap,
     future::Future,
     pin::Pin,
     sync::{
@@ -151,8 +151,12 @@ where
     pub fn clear(&self, id: TimerId) {
         self.context.spawn({
             {
-                let mut lock = CLEARED_TIMER_IDS.lock().unwrap();
-                lock.insert(id);
+                // only a timer whose future still exists can observe that it was cleared;
+                // remembering any other id would keep it forever
+                let mut lock = LIVE_TIMERS.lock().unwrap();
+                if let Some(cleared) = lock.get_mut(&id) {
+                    *cleared = true;
+                }
             }
 
             let context = self.context.clone();
@@ -188,8 +192,8 @@ where
         };
         // see if the timer has been cleared
         let timer_is_cleared = {
-            let mut lock = CLEARED_TIMER_IDS.lock().unwrap();
-            lock.remove(&self.timer_id)
+            let mut lock = LIVE_TIMERS.lock().unwrap();
+            lock.get_mut(&self.timer_id).is_some_and(std::mem::take)
         };
         let this = self.get_mut();
         this.is_cleared = timer_is_cleared;
@@ -209,6 +213,7 @@ where
     F: Future<Output = TimeResponse> + Unpin,
 {
     fn new(timer_id: TimerId, future: F) -> Self {
+        LIVE_TIMERS.lock().unwrap().insert(timer_id, false);
         Self {
             timer_id,
             future,
@@ -217,17 +222,30 @@ where
     }
 }
 
-// Global HashSet containing the ids of timers which have been _cleared_
-// but the whose futures have _not since been polled_. When the future is next
-// polled, the timer id is evicted from this set and the timer is 'poisoned'
-// so as to return immediately without waiting on the shell.
-static CLEARED_TIMER_IDS: LazyLock<Mutex<HashSet<TimerId>>> =
-    LazyLock::new(|| Mutex::new(HashSet::new()));
+impl<F> Drop for TimerFuture<F>
+where
+    F: Future<Output = TimeResponse> + Unpin,
+{
+    fn drop(&mut self) {
+        if let Ok(mut lock) = LIVE_TIMERS.lock() {
+            lock.remove(&self.timer_id);
+        }
+    }
+}
+
+// Global map of the timers whose future is alive. The flag is set for timers which
+// have been _cleared_ but whose futures have _not since been polled_. When the future
+// is next polled, the flag is reset and the timer is 'poisoned' so as to return
+// immediately without waiting on the shell. The entry goes away with the future, so
+// the map never outgrows the timers that are still outstanding.
+static LIVE_TIMERS: LazyLock<Mutex<HashMap<TimerId, bool>>> =
+    LazyLock::new(|| Mutex::new(HashMap::new()));
 
 /// Verification hook (read-only): the ids currently in the cleared-timer set, in ascending order.
 #[cfg(crux_verif)]
 pub fn verif_cleared_timer_ids() -> Vec<usize> {
-    let mut ids: Vec<usize> = CLEARED_TIMER_IDS.lock().unwrap().iter().map(|id| id.0).collect();
+    let mut ids: Vec<usize> =
+        LIVE_TIMERS.lock().unwrap().iter().filter(|(_, cleared)| **cleared).map(|(id, _)| id.0).collect();
     ids.sort_unstable();
     ids
 }
